@@ -1217,12 +1217,67 @@ func (g *gen) runGenerated(c *Case) {
 			}
 		}
 	}
+	// overload scenario (round 8; one worker, not stopped, well-formed script): ClickHouse stalls on the previous block (its Do stays
+	// blocked, when there is one) or simply no flush comes while 4..7 requests arrive whose ACCOUNTED sizes (helpers.SizeGetter: what the
+	// parsers measured on the bodies; the service never looks at the bytes) are 13..30 MiB each, so that more than 50 MiB -- the unused
+	// constant BANDWITH_LIMIT of writer/service -- and up to ~200 MiB pile up in ONE InsertServiceV2 between two flushes; then recovery:
+	// the stalled Do returns, the pile is flushed, sent and answered.  The model accounts any size (Z) and knows no other threshold than
+	// maxQueueSize: every request with rows is registered as waiting for the block its rows are in.
+	overload := func(s int) {
+		w := b.base[s]
+		kind := c.Svcs[s].Kind
+		if fl, bf := state(w); !fl && !bf && r.Intn(2) == 0 {
+			// something in flight first: a small request, flushed, its Do left blocked
+			cols, sz, rows, _ := g.request(kind, false, false)
+			if len(expand(cols[keycol[kind]])) > 0 {
+				step(Op{T: "req", S: s, P: rn.nextP, Cols: cols, Sz: sz})
+				rn.nextP++
+				c.Rows += rows
+				step(Op{T: "plan", S: s})
+				if _, bf := state(w); bf && b.trouble == "" {
+					step(Op{T: "send", S: w})
+				}
+			}
+		}
+		n := 4 + r.Intn(4)
+		for k := 0; k < n && b.trouble == ""; k++ {
+			cols, _, rows, _ := g.request(kind, false, false)
+			if len(expand(cols[keycol[kind]])) == 0 {
+				cols, rows = make([]Col, ncols[kind]), 1
+				one := g.rids(1)
+				for j := range cols {
+					cols[j] = Col{one}
+				}
+			}
+			sz := int64(13<<20) + 1 + r.Int63n(17<<20)
+			step(Op{T: "req", S: s, P: rn.nextP, Cols: cols, Sz: sz})
+			rn.nextP++
+			c.Rows += rows
+		}
+		// recovery: whatever is in flight returns, the pile is flushed and answered
+		ok := r.Intn(3) != 0
+		for k := 0; k < 2 && b.trouble == ""; k++ {
+			if _, bf := state(w); bf && b.trouble == "" {
+				step(Op{T: "send", S: w})
+			}
+			if fl, _ := state(w); fl && b.trouble == "" {
+				step(Op{T: "ret", S: w, Ok: ok || k == 1})
+			}
+			if k == 0 && b.trouble == "" {
+				step(Op{T: "plan", S: s})
+			}
+		}
+	}
 	for i := 0; i < nops && b.trouble == ""; i++ {
 		s := r.Intn(len(c.Svcs))
 		w := b.base[s] + r.Intn(b.par[s])
 		x := r.Intn(100)
 		fl, bf := state(w)
 		switch {
+		case x >= 84 && x < 88 && b.par[s] == 1 && !stopped[s] && !malformed && !strings.Contains(c.Class, "+overload"):
+			overload(s)
+			i += 4
+			c.Class += "+overload"
 		case x >= 88 && x < 97 && b.par[s] == 1 && !stopped[s] && !malformed:
 			midswap(s)
 			i += 3
